@@ -409,6 +409,15 @@ pub fn shard_run(prop: &str, tier: &str, seed: u64, replay: Option<&serde_json::
             return out;
         }
     }
+    // ---- a second server process starts on the directory while a request of the first is waiting
+    // for the write lock; then both processes get an AddVersion on the same parent
+    if replay.map(|r| r["replay"]["origin"] == "second-process-joins").unwrap_or(prop == "C03" && shard.mine(6)) && prop == "C03" {
+        if let Some(f) = second_process_joins_part(&mut cov, &mut out.errors) {
+            out.found.push(f);
+            out.cov = cov;
+            return out;
+        }
+    }
     // ---- a snapshot upload for the version the server already holds a snapshot for, arriving in
     // two halves, with a GetSnapshot of the same client in between (one worker thread)
     if replay.is_none() && prop == "C03" && shard.mine(5) {
@@ -461,6 +470,91 @@ pub fn shard_run(prop: &str, tier: &str, seed: u64, replay: Option<&serde_json::
     }
     out.cov = cov;
     out
+}
+
+/// Process 1 serves a client; another program holds the write lock for 1.5 s; an AddVersion W
+/// (parent = latest) arrives at process 1 and waits; process 2 starts on the same directory; the
+/// lock is released and an AddVersion E on the same parent goes to process 2. Exactly one of W and E
+/// may be accepted, the other names the winner; the chain has one child of that parent.
+fn second_process_joins_part(cov: &mut Cov, errors: &mut Vec<String>) -> Option<Found> {
+    use crate::http::{socket_request, Framing};
+    use crate::net::{free_port, server_bin, Proc};
+    use crate::ops::{Req, Resp};
+    use crate::scratch::ScratchDir;
+    use crate::subject::Subject;
+    use std::time::Duration;
+    use uuid::Uuid;
+    let Some(bin) = server_bin() else {
+        errors.push("server binary not built".into());
+        return None;
+    };
+    for (hold_ms, join_after_ms) in [(1500u64, 300u64), (2500, 900)] {
+        let dir = ScratchDir::new("c03join");
+        let start = |errors: &mut Vec<String>| -> Option<(Proc, String)> {
+            for _ in 0..3 {
+                let port = free_port()?;
+                let addr = format!("127.0.0.1:{port}");
+                if let Ok(p) = Proc::start(&bin, &["--listen".into(), addr.clone(), "--data-dir".into(), dir.path().to_string_lossy().to_string()], &[], &[addr.clone()], Duration::from_secs(20)) {
+                    return Some((p, addr));
+                }
+            }
+            errors.push("second-process part: cannot start the server".into());
+            None
+        };
+        let (mut p1, a1) = start(errors)?;
+        let to = Duration::from_secs(30);
+        let call = |addr: &str, client: Uuid, req: &Req| Subject::decode_http(req, &socket_request(addr, &Subject::build_http(client, req), Framing::ContentLength, to));
+        let c = Uuid::new_v4();
+        let Resp::AddOk { vid: v1, .. } = call(&a1, c, &Req::AddVersion { parent: Uuid::nil(), data: b"v1".to_vec() }) else { return None };
+        let other = rusqlite::Connection::open(crate::subject::db_file(dir.path())).ok()?;
+        if other.execute_batch("BEGIN IMMEDIATE;").is_err() {
+            continue;
+        }
+        let a1c = a1.clone();
+        let wt = {
+            let a = a1c.clone();
+            std::thread::spawn(move || {
+                let req = Req::AddVersion { parent: v1, data: b"W, sent to the first process".to_vec() };
+                Subject::decode_http(&req, &socket_request(&a, &Subject::build_http(c, &req), Framing::ContentLength, Duration::from_secs(30)))
+            })
+        };
+        std::thread::sleep(Duration::from_millis(join_after_ms));
+        let second = start(errors);
+        let elapsed_hold = hold_ms.saturating_sub(join_after_ms);
+        std::thread::sleep(Duration::from_millis(elapsed_hold.min(hold_ms)));
+        let _ = other.execute_batch("ROLLBACK;");
+        drop(other);
+        let Some((mut p2, a2)) = second else {
+            p1.kill9();
+            return None;
+        };
+        let e = call(&a2, c, &Req::AddVersion { parent: v1, data: b"E, sent to the second process".to_vec() });
+        let w = wt.join().ok()?;
+        cov.evaluations += 1;
+        cov.hit(format!("second-process-joins|W={}|E={}", w.outcome(), e.outcome()));
+        let child = call(&a2, c, &Req::GetChild { parent: v1 });
+        let child1 = call(&a1, c, &Req::GetChild { parent: v1 });
+        p1.kill9();
+        p2.kill9();
+        let fail = |m: String| Some(Found { property: "C03".into(), signature: format!("C03:second-process-joins {}", m.split_whitespace().take(5).collect::<Vec<_>>().join(" ")), msg: format!("[two server processes on one directory; the second started while a request of the first was waiting {hold_ms} ms for the write lock] {m}"), replay: json!({"origin": "second-process-joins", "case": 0}) });
+        match (&w, &e) {
+            (Resp::AddOk { vid: x, .. }, Resp::AddOk { vid: y, .. }) => {
+                return fail(format!("two overlapping AddVersion requests on the same parent {v1} were both accepted ({x} by the first process, {y} by the second); the child of {v1} is served as {} / {}", child.short(), child1.short()));
+            }
+            (Resp::AddOk { vid: x, .. }, Resp::AddConflict { expected }) | (Resp::AddConflict { expected }, Resp::AddOk { vid: x, .. }) => {
+                if expected != x {
+                    return fail(format!("one request was accepted as {x}; the rejection of the other names {expected}"));
+                }
+                match (&child, &child1) {
+                    (Resp::Found { vid: a, .. }, Resp::Found { vid: b, .. }) if a == x && b == x => {}
+                    _ => return fail(format!("{x} was accepted as the child of {v1}, which is served as {} by the second process and {} by the first", child.short(), child1.short())),
+                }
+            }
+            // an error answer (lock wait exhausted) decides nothing here
+            _ => {}
+        }
+    }
+    None
 }
 
 pub fn finalize(prop: &str, tier: &str, seed: u64, out: ShardOut, is_replay: bool) -> CheckResult {
